@@ -492,6 +492,43 @@ def _component_cases(rng):
         ('FlatMie', FlatMieContribution, dict(flat_mix_ratio=10 ** u(-12, -6), flat_bottomP=10 ** u(3, 5), flat_topP=10 ** u(-1, 2)),
          lambda g: L.load_contrib_from_hdf5(g, 'FlatMieContribution'), None),
         ('CIA', CIAContribution, dict(cia_pairs=['H2-H2', 'H2-He']), lambda g: L.load_contrib_from_hdf5(g, 'CIAContribution'), None),
+    ] + _more_component_cases(rng)
+
+
+def _more_component_cases(rng):
+    """the registered classes the first list left out: the layer-correlated temperature profile, the array / file based profiles
+    (their files are written next to the scratch output) and the contributions without keywords"""
+    import os
+    import numpy as np
+    from taurex.data.profiles.temperature import Rodgers2000, TemperatureFile
+    from taurex.data.profiles.pressure import ArrayPressureProfile, FilePressureProfile
+    from taurex.data.profiles.chemistry import ChemistryFile
+    from taurex.contributions import AbsorptionContribution, RayleighContribution, HydrogenIon
+    import taurex.util.hdf5 as L
+    u = rng.uniform
+    here = os.path.dirname(os.path.dirname(os.path.abspath(__file__)))
+    base = os.path.join(here, '.cache', 'c16')
+    os.makedirs(base, exist_ok=True)
+    n = rng.randint(3, 6)
+    press = sorted((10 ** u(-3, 1) for _ in range(n)), reverse=True)       # bar, surface first
+    temps = [round(u(500, 2500), 1) for _ in range(n)]
+    pt = os.path.join(base, 'pt_%d.dat' % os.getpid())
+    np.savetxt(pt, np.array([press, temps]).T, header='P[bar] T[K]')
+    mixes = os.path.join(base, 'mix_%d.dat' % os.getpid())
+    np.savetxt(mixes, np.array([[10 ** u(-8, -3) for _ in range(n)], [10 ** u(-8, -3) for _ in range(n)], [0.8] * n]).T)
+    arr = np.array(sorted((10 ** u(-2, 6) for _ in range(n)), reverse=True))
+    return [
+        ('Rodgers2000', Rodgers2000, dict(temperature_layers=temps, correlation_length=round(u(1, 10), 2)), lambda g: L.load_temperature_from_hdf5(g), 'Temperature'),
+        ('ArrayPressureProfile', ArrayPressureProfile, dict(array=arr), lambda g: L.load_pressure_from_hdf5(g), 'Pressure'),
+        ('ArrayPressureProfile/reverse', ArrayPressureProfile, dict(array=arr[::-1].copy(), reverse=True), lambda g: L.load_pressure_from_hdf5(g), 'Pressure'),
+        ('FilePressureProfile', FilePressureProfile, dict(filename=pt, usecols=0, skiprows=1, units='bar'), lambda g: L.load_pressure_from_hdf5(g), 'Pressure'),
+        ('TemperatureFile', TemperatureFile, dict(filename=pt, skiprows=1, temp_col=1), lambda g: L.load_temperature_from_hdf5(g), 'Temperature'),
+        ('TemperatureFile/pressure', TemperatureFile, dict(filename=pt, skiprows=1, temp_col=1, press_col=0, press_units='bar'),
+         lambda g: L.load_temperature_from_hdf5(g), 'Temperature'),
+        ('ChemistryFile', ChemistryFile, dict(gases=['H2O', 'CH4', 'H2'], filename=mixes), lambda g: L.load_chemistry_from_hdf5(g), 'Chemistry'),
+        ('Absorption', AbsorptionContribution, dict(), lambda g: L.load_contrib_from_hdf5(g, 'AbsorptionContribution'), None),
+        ('Rayleigh', RayleighContribution, dict(), lambda g: L.load_contrib_from_hdf5(g, 'RayleighContribution'), None),
+        ('HydrogenIon', HydrogenIon, dict(), lambda g: L.load_contrib_from_hdf5(g, 'HydrogenIon'), None),
     ]
 
 
@@ -500,6 +537,12 @@ def _make_writable(obj):
     import numpy as np
     if hasattr(obj, 'compute_pressure_profile'):
         obj.compute_pressure_profile()
+    if type(obj).__name__ == 'HydrogenIon':       # a model runs before it writes: the mixing ratios prepare_each leaves behind
+        obj._hydrogen_mixratio, obj._electron_mixratio = np.full(4, 1e-4), np.full(4, 1e-6)
+    from taurex.data.profiles.temperature import TemperatureProfile
+    if isinstance(obj, TemperatureProfile):
+        n = len(getattr(obj, '_T_layers', range(5)))
+        obj.initialize_profile(None, n, np.logspace(5, 0, n))
     if hasattr(obj, 'initialize') and hasattr(obj, 'sed'):
         obj.initialize(np.linspace(500, 5000, 5))
 
@@ -559,9 +602,15 @@ def _b_components(seed, tier):
                     _make_writable(obj2)
                     names = set()
                     f.visit(lambda n: names.add(n.split('/')[-1]))
+                import inspect
+                sig = inspect.signature(K.__init__).parameters
                 for k in get_klass_args(K):
                     if k == 'planet_sma':
                         continue          # documented alias of planet_distance (one field by design)
+                    if kw.get(k, sig[k].default) is None:
+                        continue          # None cannot be stored; the loader then leaves the default, which is None
+                    if K.__name__ == 'ArrayPressureProfile' and k == 'reverse':
+                        continue          # an input-order flag: the array is stored in the order in use (reload with the default)
                     if k not in names:
                         fails.append(dict(clause='component.keyword_not_written', inputs=dict(component=label, keyword=k)))
                 w1, w2 = _written(obj), _written(obj2)
@@ -576,7 +625,9 @@ def _b_components(seed, tier):
                 if os.path.exists(path):
                     os.remove(path)
     return {'cases': cases, 'failures': fails, 'samples': [dict(component='Guillot2010')],
-            'bound': '%d built-in component classes x %d random non-default parameter sets, written with HDF5Output, reloaded with taurex.util.hdf5' % (13, rounds)}
+            'bound': '%d component cases (every class the ClassFactory registers for temperature, pressure, gas, chemistry, star -- PhoenixStar excepted: '
+                     'its spectra library is not installed -- and contribution) x %d random non-default parameter sets, written with HDF5Output, '
+                     'reloaded with taurex.util.hdf5' % (cases // max(rounds, 1), rounds)}
 
 
 def _dict_diff(a, b, path=''):
@@ -704,7 +755,7 @@ def _ctor_keywords(qual):
     return ci, fn, names, defs
 
 
-def _cw_unit(qual, strings=(), arrays=(), skip=(), alias=None, extra_abs=None, convert=None, props='C16', write_in=None, assume=None, ints=(), where=None):
+def _cw_unit(qual, strings=(), arrays=(), skip=(), alias=None, extra_abs=None, convert=None, props='C16', write_in=None, assume=None, ints=(), where=None, consts=None):
     clsname = qual.split(':')[1]
     alias = alias or {}
     wqual = (qual.split(':')[0] + ':' + write_in) if write_in else qual
@@ -713,7 +764,9 @@ def _cw_unit(qual, strings=(), arrays=(), skip=(), alias=None, extra_abs=None, c
         ci, fn, names, defs = _ctor_keywords(qual)
         vals = {}
         for nm, df in zip(names, defs):
-            if nm in strings:
+            if consts and nm in consts:
+                vals[nm] = consts[nm]
+            elif nm in strings:
                 vals[nm] = strings[nm] if isinstance(strings, dict) and strings[nm] is not None else (df if isinstance(df, str) else 'H2O')
             elif nm in arrays:
                 vals[nm] = c.array('kw_' + nm, (c.int('len_' + nm),))
@@ -754,6 +807,9 @@ def _cw_unit(qual, strings=(), arrays=(), skip=(), alias=None, extra_abs=None, c
             if where[1] is not None:           # (contributions: the loader takes the group name as the type, no key)
                 d['type_key_names_this_class'] = here.get(where[1]) == clsname
             d['every_keyword_in_that_group'] = all(alias.get(nm, nm) in here for nm in kw if nm not in skip)
+            # the loader hands over exactly the constructor parameters that have a default (get_klass_args: own unit)
+            ci_, fn_, names_, _ = _ctor_keywords(qual)
+            d['every_keyword_is_one_the_loader_can_pass'] = len(fn_.args.defaults) == len(names_)
         for nm, val in kw.items():
             if nm in skip:
                 continue
@@ -798,6 +854,9 @@ CW_NPT = _cw_unit(_T + 'npoint:NPoint', arrays=('temperature_points', 'pressure_
                   assume=lambda kw: [z3.Int('len_temperature_points') == z3.Int('len_pressure_points'), kw['P_surface'] > 0, kw['P_top'] > 0])
 CW_PRS = _cw_unit('taurex.data.profiles.pressure.pressureprofile:SimplePressureProfile', ints=('nlayers',), where=('Pressure', 'pressure_type'),
                   assume=lambda kw: [kw['atm_min_pressure'] <= kw['atm_max_pressure'], kw['atm_min_pressure'] > 0, kw['nlayers'] >= 1])
+CW_APP = _cw_unit('taurex.data.profiles.pressure.arraypressure:ArrayPressureProfile', arrays=('array',), consts={'reverse': False}, skip=('reverse',),
+                  where=('Pressure', 'pressure_type'), assume=lambda kw: [z3.Int('len_array') >= 1])
+# (reverse: an input-order flag -- the array is stored in the order in use and reloaded with the default)
 CW_PLN = _cw_unit('taurex.data.planet:Planet', skip=('planet_sma', 'planet_mass', 'planet_radius', 'planet_distance'), write_in='BasePlanet', where=('Planet', 'planet_type'))
 # (mass / radius / distance: stored through astropy unit conversion and written through taurex.constants -- their agreement is a
 #  numeric fact about two tables, left to the bounded round trip)
